@@ -57,9 +57,9 @@ fn restore(base: &Path, root: &Path) -> std::io::Result<()> {
 
 #[derive(Clone, Debug)]
 enum Item {
-    Crash(u64),
-    Signal(u64),
-    Fail { target: Tid, kind: String },
+    Crash(u64, bool),
+    Signal(u64, bool),
+    Fail { target: Tid, kind: String, revert: bool, io: Option<(String, u32)> },
     Prefix { target: Tid, len: usize },
     Flip { target: Tid, bit: usize, edit: bool },
     Garbage { target: Tid, seed: u64 },
@@ -69,9 +69,18 @@ enum Item {
 impl Item {
     fn tag(&self, sc: &Scenario) -> String {
         match self {
-            Item::Crash(k) => format!("crash@{}", k),
-            Item::Signal(k) => format!("signal@{}", k),
-            Item::Fail { target, kind } => format!("fail:{}:{}", sc.sim_id(target.0, &target.1), kind),
+            Item::Crash(k, rv) => format!("crash@{}{}", k, if *rv { "+revert" } else { "" }),
+            Item::Signal(k, rv) => format!("signal@{}{}", k, if *rv { "+revert" } else { "" }),
+            Item::Fail { target, kind, revert, io } => format!(
+                "fail:{}:{}{}{}",
+                sc.sim_id(target.0, &target.1),
+                kind,
+                match io {
+                    Some((site, occ)) => format!("+{}#{}", site, occ),
+                    None => String::new(),
+                },
+                if *revert { "+revert" } else { "" }
+            ),
             Item::Prefix { target, len } => format!("prefix:{}:{}", sc.sim_id(target.0, &target.1), len),
             Item::Flip { target, bit, edit } => format!("flip:{}:{}:{}", sc.sim_id(target.0, &target.1), bit, if *edit { "edited" } else { "same" }),
             Item::Garbage { target, seed } => format!("garbage:{}:{}", sc.sim_id(target.0, &target.1), seed),
@@ -166,8 +175,14 @@ impl Property for C05 {
             }
         };
         // prefix steps
+        let primed = root.with_extension("primed");
+        let _ = std::fs::remove_dir_all(&primed);
+        let mut have_primed = false;
         let mut idx = 0;
         for st in &sc.steps[..mi] {
+            if !matches!(st, Step::Invoke(_)) && idx > 0 && !have_primed {
+                have_primed = copy_tree(root, &primed).is_ok();
+            }
             match st {
                 Step::Invoke(inv) => {
                     let r = run_invocation(sc, &mut case, inv, &format!("pre{}", idx));
@@ -193,6 +208,7 @@ impl Property for C05 {
         let cleanup = |_: ()| {
             let _ = std::fs::remove_dir_all(&base);
             let _ = std::fs::remove_dir_all(&base2);
+            let _ = std::fs::remove_dir_all(&primed);
         };
         if copy_tree(root, &base).is_err() {
             stats.harness_errors.push("copy_tree failed".into());
@@ -245,17 +261,37 @@ impl Property for C05 {
         let thorough = std::env::var("ZCHECK_TIER").map(|t| t == "thorough").unwrap_or(false);
         let mut items: Vec<Item> = vec![];
         for k in 1..=n_dec {
-            items.push(Item::Crash(k));
+            items.push(Item::Crash(k, false));
         }
         let sstride = if thorough { 1 } else { 2 };
         let mut k = 1;
         while k <= n_dec {
-            items.push(Item::Signal(k));
+            items.push(Item::Signal(k, false));
             k += sstride;
         }
         for t in &started {
             for kind in ["exit=1", "sig=9", "eagain"] {
-                items.push(Item::Fail { target: t.clone(), kind: kind.into() });
+                items.push(Item::Fail { target: t.clone(), kind: kind.into(), revert: false, io: None });
+            }
+        }
+        if have_primed {
+            // the same interruptions followed by a revert of the edited inputs to what the last
+            // successful record saw: a record that wrongly survived would now match
+            let rstride = if thorough { 2 } else { 5 };
+            let mut k = 1;
+            while k <= n_dec {
+                items.push(Item::Crash(k, true));
+                items.push(Item::Signal(k, true));
+                k += rstride;
+            }
+            for t in &started {
+                items.push(Item::Fail { target: t.clone(), kind: "exit=1".into(), revert: true, io: None });
+                // an I/O error on one of zinoma's own calls on the way to the failing script
+                for site in ["fs.metadata", "fs.remove_file", "fs.open"] {
+                    for occ in 1..=(if thorough { 40 } else { 14 }) {
+                        items.push(Item::Fail { target: t.clone(), kind: "exit=1".into(), revert: true, io: Some((site.to_string(), occ)) });
+                    }
+                }
             }
         }
         for (t, bytes) in &finals {
@@ -322,7 +358,7 @@ impl Property for C05 {
             let interrupted: Option<RunResult>;
             let mut edited_ok = false;
             match it {
-                Item::Crash(_) | Item::Signal(_) | Item::Fail { .. } => {
+                Item::Crash(..) | Item::Signal(..) | Item::Fail { .. } => {
                     if restore(&base, root).is_err() {
                         stats.harness_errors.push("restore failed".into());
                         break;
@@ -331,12 +367,15 @@ impl Property for C05 {
                     let mut inv = main_inv.clone();
                     inv.plan = replay_plan.clone();
                     match it {
-                        Item::Crash(k) => inv.plan.crash_at = Some(*k),
-                        Item::Signal(k) => inv.plan.events.insert(0, PlanEvent { id: "sigk".into(), kind: PlanEventKind::Signal, gate: Gate::Step(*k) }),
-                        Item::Fail { target, kind } => {
+                        Item::Crash(k, _) => inv.plan.crash_at = Some(*k),
+                        Item::Signal(k, _) => inv.plan.events.insert(0, PlanEvent { id: "sigk".into(), kind: PlanEventKind::Signal, gate: Gate::Step(*k) }),
+                        Item::Fail { target, kind, io, .. } => {
                             let id = sc.sim_id(target.0, &target.1);
                             let site = if kind == "eagain" { format!("proc.spawn:{}", id) } else { format!("proc.exit:{}", id) };
                             inv.plan.faults.push(Fault { site, occurrence: 1, kind: kind.clone() });
+                            if let Some((s, occ)) = io {
+                                inv.plan.faults.push(Fault { site: s.clone(), occurrence: *occ, kind: "eio".into() });
+                            }
                         }
                         _ => {}
                     }
@@ -346,17 +385,16 @@ impl Property for C05 {
                     if hit_after_start {
                         stats.nontrivial.insert(r1.order_hash ^ simrt::stamp::fnv(simrt::stamp::FNV_INIT, tag.as_bytes()));
                     }
-                    if matches!(it, Item::Crash(_)) && r1.code != 137 {
+                    if matches!(it, Item::Crash(..)) && r1.code != 137 {
                         // the crash index was not reached: the run diverged from R0
                         if r1.main_returned() {
                             stats.harness_errors.push(format!("crash item {} not reached: replay of R0 diverged", tag));
                             break;
                         }
                     }
-                    if matches!(it, Item::Signal(_) | Item::Fail { .. }) {
-                        if let Some(a) = r1.abnormal() {
-                            let _ = a;
-                        }
+                    let reverting = matches!(it, Item::Crash(_, true) | Item::Signal(_, true) | Item::Fail { revert: true, .. });
+                    if reverting {
+                        revert_inputs(sc, &mut case, &primed, &started);
                     }
                     interrupted = Some(r1);
                 }
@@ -417,7 +455,7 @@ impl Property for C05 {
                     Item::Garbage { .. } => "record-garbage".to_string(),
                     _ => "record-foreign".to_string(),
                 }).or_insert(0) += 1;
-            } else if matches!(it, Item::Signal(_)) {
+            } else if matches!(it, Item::Signal(..)) {
                 *stats.faults.entry("signal-at-decision-index".into()).or_insert(0) += 1;
             }
             let c2 = InvCtx::new(sc, &recovery, &r2);
@@ -455,11 +493,24 @@ impl Property for C05 {
                 }
                 let must_run = match it {
                     // a crashed run is a prefix of R0: the record is complete iff its bytes equal R0's
-                    Item::Crash(_) => started.contains(t) && on_disk[t].as_ref() != finals.get(t),
+                    Item::Crash(_, false) => started.contains(t) && on_disk[t].as_ref() != finals.get(t),
+                    // reverted inputs: only a target whose script actually started in the
+                    // interrupted run and did not complete must run again (an untouched old
+                    // record legitimately matches the reverted inputs)
+                    Item::Crash(_, true) | Item::Signal(_, true) | Item::Fail { revert: true, .. } => {
+                        let r1 = interrupted.as_ref();
+                        let spawned = r1.map(|r| !r.insts(&sc.sim_id(t.0, &t.1)).is_empty()).unwrap_or(false);
+                        let done = r1.map(|r1| {
+                            r1.logs().any(|e| e.rest == format!("INFO {} - Build success (took: _ms)", disp))
+                                && !r1.logs().any(|e| e.rest.starts_with(&format!("WARN {} - Failed to", disp)))
+                                && on_disk[t].is_some()
+                        }).unwrap_or(false);
+                        spawned && !done
+                    }
                     // after a signal or failure the run diverges from R0 (other completion order,
                     // other logical mtimes): "done" = zinoma reported the build's success and
                     // stored its state in that run
-                    Item::Signal(_) | Item::Fail { .. } => {
+                    Item::Signal(_, false) | Item::Fail { revert: false, .. } => {
                         let done = interrupted.as_ref().map(|r1| {
                             r1.logs().any(|e| e.rest == format!("INFO {} - Build success (took: _ms)", disp))
                                 && !r1.logs().any(|e| e.rest.starts_with(&format!("WARN {} - Failed to", disp)))
@@ -473,7 +524,7 @@ impl Property for C05 {
                 };
                 if must_run {
                     let why = match it {
-                        Item::Crash(_) | Item::Signal(_) | Item::Fail { .. } => {
+                        Item::Crash(..) | Item::Signal(..) | Item::Fail { .. } => {
                             let state = match &on_disk[t] {
                                 None => "absent".to_string(),
                                 Some(b) => format!("{} bytes, differs from the completed record ({} bytes)", b.len(), finals.get(t).map(|f| f.len()).unwrap_or(0)),
@@ -539,4 +590,56 @@ fn edit_an_input(sc: &Scenario, case: &mut Case, t: &Tid) -> bool {
         }
     }
     false
+}
+
+/// Restore the own declared input files of `targets` to what they were right after priming.
+fn revert_inputs(sc: &Scenario, case: &mut Case, primed: &Path, targets: &BTreeSet<Tid>) {
+    use std::os::unix::fs::MetadataExt;
+    for t in targets {
+        let (inputs, _) = model::declared(sc, &case.root, t);
+        let own: Vec<_> = inputs.into_iter().take(1).collect();
+        // files that exist now
+        let mut now: BTreeSet<std::path::PathBuf> = BTreeSet::new();
+        for (res, dir) in &own {
+            now.extend(model::denote(res, dir));
+        }
+        // files that existed at priming time
+        let mut then: BTreeSet<std::path::PathBuf> = BTreeSet::new();
+        for (res, dir) in &own {
+            if let Ok(rel) = dir.strip_prefix(&case.root) {
+                for f in model::denote(res, &primed.join(rel)) {
+                    if let Ok(r) = f.strip_prefix(primed) {
+                        then.insert(case.root.join(r));
+                    }
+                }
+            }
+        }
+        for f in now.difference(&then) {
+            let _ = std::fs::remove_file(f);
+        }
+        for f in &then {
+            if let Ok(rel) = f.strip_prefix(&case.root) {
+                let src = primed.join(rel);
+                if let (Ok(b), Ok(md)) = (std::fs::read(&src), std::fs::metadata(&src)) {
+                    if let Some(d) = f.parent() {
+                        let _ = std::fs::create_dir_all(d);
+                    }
+                    let _ = std::fs::write(f, b);
+                    set_mtime_ns(f, md.mtime(), md.mtime_nsec());
+                }
+            }
+        }
+        // command variables
+        for (res, dir) in &own {
+            for r in res {
+                if let Res::Cmd { key } = r {
+                    let rel = dir.strip_prefix(&case.root).map(|p| p.to_string_lossy().replace('/', "+")).unwrap_or_default();
+                    let name = format!("{}__{}", rel, key);
+                    if let Ok(b) = std::fs::read(primed.join(".vars").join(&name)) {
+                        let _ = std::fs::write(case.vars_dir().join(&name), b);
+                    }
+                }
+            }
+        }
+    }
 }
